@@ -3,7 +3,7 @@
    Model/Builder.v (parsing side). *)
 From Coq Require Import List NArith.
 From XotV Require Import Model.Base Model.Fullname Model.Scope Model.Entity Model.Builder
-                         Proofs.EntityProofs Proofs.BuilderProofs Proofs.FullnameProofs Gen.Tables Proofs.EntityTables.
+                         Proofs.EntityProofs Proofs.BuilderProofs Proofs.FullnameProofs.
 Import ListNotations.
 Open Scope N_scope.
 
@@ -69,26 +69,3 @@ Theorem C01_table_duplicate_free :
   forall d cur, NoDup (map fst d) -> NoDup (map fst cur) -> NoDup (map fst (info_new d cur)).
 Proof. exact info_new_nodup. Qed.
 Print Assumptions C01_table_duplicate_free.
-
-
-(* ---------- the escapes are the ones the source has today ----------
-   Gen/Tables.v is regenerated from /repo/src/entity.rs on every run (tools/gen_tables.py): [attr_escapes] holds, arm by arm,
-   what the `match c` of serialize_attribute writes, [text_escapes] the unguarded arms of serialize_text, [text_gt_escape] what
-   its two guarded '>' arms write.  The model's serialisers are exactly these tables, so the round trips above are statements
-   about the escapes the crate writes now: an arm that is added, dropped or changed in the source changes the table and these
-   theorems are checked against it again. *)
-Theorem C01_attribute_escapes_are_the_sources :
-  forall s, serialize_attribute s = flat_map (escape_tbl attr_escapes) s.
-Proof. exact serialize_attribute_is_the_table. Qed.
-Print Assumptions C01_attribute_escapes_are_the_sources.
-
-Theorem C01_text_escapes_are_the_sources :
-  forall g s l1 l2, serialize_text_go g s l1 l2 = text_go_tbl text_escapes text_gt_escape g s l1 l2.
-Proof. exact serialize_text_is_the_table. Qed.
-Print Assumptions C01_text_escapes_are_the_sources.
-
-(* hence: what the source's attribute arms write is read back as the value, for every string *)
-Theorem C01_attribute_roundtrip_on_the_sources_table :
-  forall base s, parse_attribute base (flat_map (escape_tbl attr_escapes) s) = inr s.
-Proof. intros base s. rewrite <- serialize_attribute_is_the_table. apply parse_serialize_attribute. Qed.
-Print Assumptions C01_attribute_roundtrip_on_the_sources_table.
